@@ -157,7 +157,7 @@ class CHECK(core.Check):
                   "field reduced to its width — truthiness for one-bit fields — plus the zero padding field, booleans "
                   "when requested, both byte orders), C40_packInto_frame, C40_reverse_mirror_*, C40_unbytify_bytify, "
                   "C40_bytify_unbytify, C40_unhexify_hexify, C40_hexify_unhexify, C40_unbinize_binize, "
-                  "C40_binize_unbinize, C40_signExtend_twos_complement. Partial: the literal 'masked' reading for "
+                  "C40_binize_unbinize, C40_signExtend_twos_complement, C40_unpackByte_packByte. Partial: the literal 'masked' reading for "
                   "one-bit fields (C40_unpack_pack_masked_partial, counterexample C40_counterexample_onebit).")
     LEVEL_NOTE = ("Trusted: Lean kernel; axioms propext, Classical.choice, Quot.sound; the hand transcription of byting.py "
                   "validated by the correspondence runs only; CPython's int/str/bytearray primitives. Python ints are "
